@@ -6,7 +6,8 @@ set -u
 P=$(realpath "$1"); ID=$2; TIER=${3:-quick}
 WT=/tmp/wt/tm.$$
 mkdir -p /tmp/wt
-git -C /repo worktree add --detach "$WT" HEAD >/dev/null 2>&1 || exit 2
+# VERIF_BASE: commit to start from (default: /repo's HEAD), e.g. the head of a scratch branch with fixes not merged yet
+git -C /repo worktree add --detach "$WT" "${VERIF_BASE:-HEAD}" >/dev/null 2>&1 || exit 2
 trap 'git -C /repo worktree remove --force "$WT" >/dev/null 2>&1' EXIT
 if ! git -C "$WT" apply --check "$P" 2>/dev/null; then echo "PATCH DOES NOT APPLY: $P"; exit 3; fi
 git -C "$WT" apply "$P"
